@@ -399,7 +399,7 @@ class Timer:
             if self.t0[lbl] is None:
                 ts = " Stopped"
             else:
-                ts = f" {(t - self.t0[lbl]):.2e} s" % (t - self.t0[lbl])  # type: ignore
+                ts = f" {(t - self.t0[lbl]):.2e} s"  # type: ignore
             s += f"{lbl:{lfldln}s}  {td:.2e} s  {ts}\n"
 
         return s
